@@ -156,7 +156,7 @@ def backCols (i : PipeIn) (goenvS aanfS goS : String) : String :=
       let dceOk := fragDce b
       let drs := if dceOk then [] else dceReasons e
       let emit := if inE && dceOk then "EMIT-IN" else "EMIT-OUT"
-      s!"annot={va}\tgo={vg}\t{if inE then "E2E-IN" else "E2E-OUT"}\t{"; ".intercalate (rs.map C09.clean)}\tdce={if dceOk then "OK" else "NO"}\t{emit}\t{"; ".intercalate (drs.map C09.clean)}"
+      s!"annot={va}\tgo={vg}\t{if inE then "E2E-IN" else "E2E-OUT"}\t{"; ".intercalate (rs.map fun r => (C09.clean r).replace ";" ",")}\tdce={if dceOk then "OK" else "NO"}\t{emit}\t{"; ".intercalate (drs.map C09.clean)}"
   | a, b, c => s!"annot=decode-error env={a.isSome} aanf={b.isSome} go={c.isSome}\tgo=decode-error\tE2E-OUT\t\tdce=NO\tEMIT-OUT\t"
 
 def runLine (l : String) : String :=
